@@ -1054,9 +1054,9 @@ class PandasModelBase(
         self.drop_indices(res)
         if scratch_col is not None:
             del res[scratch_col]
-        on_a_set = set(op.on_a)
+        same_name_keys = set([a for (a, b) in zip(op.on_a, op.on_b) if a == b])
         for c in common_cols:
-            if c not in on_a_set:
+            if c not in same_name_keys:
                 is_null = res[c].isnull()
                 res.loc[is_null, c] = res.loc[is_null, c + "_tmp_right_col"]
                 res = res.drop(c + "_tmp_right_col", axis=1, inplace=False)
